@@ -10,7 +10,9 @@ ASSUMPTIONS = {
     "A-posix": "Linux/posix, CPython 3.12: branches on sys.platform == 'win32' / os.name != 'posix' are pruned",
     "A-kernel": "a worker's sentinel becomes readable iff the process is gone; pipe EOF iff all writers are gone; <=512-byte pipe writes are atomic",
     "A-env": "the kernel's cgroup files are well-formed (cpu.max has two tokens; quota/period are 'max' or integers) and LOKY_MAX_CPU_COUNT, when set, parses as an integer (otherwise cpu_count raises ValueError, as int() does)",
-    "A-alias": "the manager thread's tables (processes, pending, running, management lock) are the very objects of the executor its weak reference points to (set once in _ExecutorManagerThread.__init__)",
+    "A-alias": "the manager thread's tables (processes, pending, running, management lock) are the very objects of the executor its weak reference points to: "
+               "proved for the constructor (_ExecutorManagerThread.__init__ contract) and 'never reassigned afterwards' by a structural scan; what remains assumed is "
+               "that the executor's own fields are not rebound while its manager runs (shutdown() sets some to None: covered by the 'healthy executor' relies)",
     "A-pids": "keys of the process table are the pids of started, un-reaped children; the OS gives no new child the pid of an un-reaped one",
     "A-psutil": "psutil's memory probe of the worker's own pid does not raise",
     "A-tracker-stable": "the resource tracker does not die between two consecutive liveness probes of one process launch",
@@ -206,6 +208,48 @@ def scan_singleton_writers(repo, tier, seed):
                 f"initial values: { {k: init.get(k) for k in ('_executor', '_executor_kwargs', '_next_executor_id', '_executor_lock')} }")]
 
 
+def scan_manager_fields(repo, tier, seed):
+    """A-alias, structural half: the manager thread's references to the executor's tables are assigned in its constructor only (the constructor's contract proves
+    they are the executor's very objects), and the executor's own tables / locks are assigned only in ProcessPoolExecutor.__init__ / shutdown / _setup_queues."""
+    tree = _scan(repo, "loky/process_executor.py")
+    fields = {"processes", "pending_work_items", "running_work_items", "processes_management_lock", "thread_wakeup", "shutdown_lock", "executor_flags",
+              "call_queue", "result_queue", "work_ids_queue", "executor_reference"}
+    writers = set()
+    for cls in [n for n in tree.body if isinstance(n, _ast.ClassDef) and n.name == "_ExecutorManagerThread"]:
+        for fn in [n for n in cls.body if isinstance(n, _ast.FunctionDef)]:
+            for n in _ast.walk(fn):
+                # `self.running_work_items += [x]` extends the list in place (list.__iadd__ returns the same object): not a rebinding
+                tg = n.targets if isinstance(n, _ast.Assign) else ([n.target] if isinstance(n, _ast.AnnAssign) else [])
+                for t in tg:
+                    for a in _ast.walk(t):
+                        if isinstance(a, _ast.Attribute) and isinstance(a.value, _ast.Name) and a.value.id == "self" and a.attr in fields and isinstance(a.ctx, _ast.Store):
+                            writers.add(f"{fn.name}:{a.attr}")
+    ok = all(w.startswith("__init__:") for w in writers) and {w.split(":")[1] for w in writers} == fields
+    return [_ob("loky.process_executor:_ExecutorManagerThread:structural/table-references-assigned-in-the-constructor-only", ok, f"assignments: {sorted(writers)}")]
+
+
+def scan_after_fork_hook(repo, tier, seed):
+    """C05 (fork start method): a forked worker inherits the parent's registry of manager threads, whose entries hold a copy of the shutdown lock that
+    submit() holds while it spawns; the worker's own _python_exit() at exit would block on it for ever. The module registers an after-fork hook that must
+    actually *empty* the registry (a call of .clear(), not a reference to it)."""
+    tree = _scan(repo, "loky/process_executor.py")
+    hooks = []
+    for n in tree.body:
+        if isinstance(n, _ast.Expr) and isinstance(n.value, _ast.Call) and _ast.unparse(n.value.func).endswith("register_after_fork"):
+            hooks.append(n.value)
+    ok = False
+    detail = [_ast.unparse(h) for h in hooks]
+    for h in hooks:
+        if len(h.args) == 2 and _ast.unparse(h.args[0]) == "_threads_wakeups" and isinstance(h.args[1], _ast.Lambda):
+            lam = h.args[1]
+            arg = lam.args.args[0].arg if lam.args.args else None
+            body = lam.body
+            if isinstance(body, _ast.Call) and isinstance(body.func, _ast.Attribute) and body.func.attr == "clear" and \
+                    isinstance(body.func.value, _ast.Name) and body.func.value.id == arg and not body.args and not body.keywords:
+                ok = True
+    return [_ob("loky.process_executor:<module>:structural/forked-children-start-with-an-empty-registry-of-manager-threads", ok, f"after-fork hooks: {detail}")]
+
+
 EXEC_ABS = COMMON_ABS + ["one manager-thread method is treated as atomic w.r.t. the executor's tables (A-atomic)"]
 
 PROPS["C19"] = dict(
@@ -229,6 +273,7 @@ PROPS["C02"] = dict(
                 "the feeder and user threads (A-atomic); futures already resolved are untouched only in the sense that no set_result/other set_exception occurs.",
     assumptions=["A-atomic", "A-kernel", "A-alias", "A-pids", "A-posix"],
     abstractions=EXEC_ABS,
+    extra=[scan_manager_fields],
 )
 PROPS["C04"] = dict(
     proved="for every exception class a task can raise (any BaseException subclass, user classes included) the worker sends exactly one _ResultItem carrying the "
@@ -238,6 +283,7 @@ PROPS["C04"] = dict(
     not_covered="interleavings of the feeder thread with dispatch/completion (A-atomic); what pickle does with the reducers (T-stdlib).",
     assumptions=["A-atomic", "A-user", "A-async", "A-psutil", "A-alias", "A-pids"],
     abstractions=EXEC_ABS,
+    extra=[scan_manager_fields],
 )
 PROPS["C05"] = dict(
     proved="run() returns only after terminate_broken or when is_shutting_down() held and nothing was pending, after join_executor_internals; without kill_workers "
@@ -248,6 +294,7 @@ PROPS["C05"] = dict(
     not_covered="that results in flight are delivered before the manager leaves; sentinel/time-out races; termination of the sentinel loop; atexit ordering.",
     assumptions=["A-atomic", "A-alias", "A-pids", "A-posix"],
     abstractions=EXEC_ABS,
+    extra=[scan_manager_fields, scan_after_fork_hook],
 )
 PROPS["C06"] = dict(
     proved="with kill_workers read true every pending future gets a ShutdownExecutorError, the pending map is emptied, no result is fabricated, every registered "
@@ -264,6 +311,7 @@ PROPS["C07"] = dict(
     not_covered="the race 'sentinel readable before the pid message is read'; expiry racing with dispatch (schedules, A-kernel).",
     assumptions=["A-atomic", "A-alias", "A-pids", "A-user", "A-async", "A-psutil"],
     abstractions=EXEC_ABS,
+    extra=[scan_manager_fields],
 )
 PROPS["C08"] = dict(
     proved="_adjust_process_count never registers more than max(len before, max_workers) workers, fills up to max_workers, keeps every existing worker and starts "
@@ -291,6 +339,7 @@ PROPS["C03"] = dict(
                 "not (their obligations are beyond the installed solvers, DESIGN.md 10.2).",
     assumptions=["A-atomic", "A-alias", "A-pids", "A-user", "A-iter", "A-running"],
     abstractions=EXEC_ABS,
+    extra=[scan_manager_fields],
 )
 
 
